@@ -32,7 +32,7 @@ PROPS = {
         "also": ["C01.", "C05.packet", "C20.packet"],
         "witness": ("w_server", ['w_c02_dispatch', 'w_c20_malformed', 'w_c01_chunkings']),
         "title": "Each client command reaches exactly the right shim callback, verbatim",
-        "kani": [("k2_commands", ["k2_parse_text", "k2_parse_stmt", "k2_parse_other"]), ("k1_frames", None)],
+        "kani": [("k2_commands", ["k2_parse_text_03", "k2_parse_text_04", "k2_parse_text_02", "k2_parse_text_16", "k2_parse_stmt_17", "k2_parse_stmt_18", "k2_parse_stmt_19", "k2_parse_other_01", "k2_parse_other_0e", "k2_parse_other_rest"]), ("k1_frames", None)],
         "native": ["n1_packet"],
         "verus": [(U5, ["U5."]), (U1, ["U1.next"])],
     },
@@ -79,7 +79,7 @@ PROPS = {
         "also": ["C10.reply", "U3.reply"],
         "witness": ("w_server", ['w_c08_params', 'w_c10_registry']),
         "title": "Prepared-statement parameters are decoded to exactly what the client bound",
-        "kani": [("k2_commands", ["k2_parse_stmt"]), ("k3_decode", None)],
+        "kani": [("k2_commands", ["k2_parse_stmt_17", "k2_parse_stmt_18", "k2_parse_stmt_19"]), ("k3_decode", None)],
         "verus": [(U4, ["U4."]), (U3, ["U3.reply", "C10.reply"])],
     },
     "C09": {
@@ -137,7 +137,7 @@ PROPS = {
     "C17": {
         "witness": ("w_server", ['w_c16_c17_stmt', 'w_c10_registry']),
         "title": "Long data is concatenated in order, delivered once, and never leaks",
-        "kani": [("k2_commands", ["k2_parse_stmt"])],
+        "kani": [("k2_commands", ["k2_parse_stmt_17", "k2_parse_stmt_18", "k2_parse_stmt_19"])],
         "also": ["C10.reply", "U3.reply"],
         "verus": [(U4, ["U4.", "C08.next"]), (U5, ["C10.", "C02.run.log", "U5.run"]), (U3, ["U3.reply"])],
     },
